@@ -67,23 +67,18 @@ theorem runRange_within_bound (passes : Array PassT) (c : Ctx) (lo hi fuel : Nat
 
 /-- the same for a call of `Silf::runGraphite` with the bidi step -/
 theorem runPhase_within_bound (passes : Array PassT) (bPass : Nat) (c : Ctx) (lo hi : Nat) (dobidi : Bool) (fuel : Nat) (h : WF c.seg)
-    (hL : ∀ k, lo ≤ k → k < hi → 1 ≤ (passes.getD k default).maxLoop) :
-    (∀ c', runPhase passes bPass c lo hi dobidi fuel = .ok (some c') → c'.vExceeded = c.vExceeded) ∧
-    (∀ w, runPhase passes bPass c lo hi dobidi fuel = .error w → EngineError w) := by
+    (hL : ∀ k, lo ≤ k → k < hi → 1 ≤ (passes.getD k default).maxLoop) (aMirror : Nat) :
+    (∀ c', runPhase passes bPass c lo hi dobidi fuel aMirror = .ok (some c') → c'.vExceeded = c.vExceeded) ∧
+    (∀ w, runPhase passes bPass c lo hi dobidi fuel aMirror = .error w → EngineError w) := by
   have hstep : ∀ ar k, lo ≤ k → k < hi → ∀ c1 c2, (WF c1.seg ∧ c1.vExceeded = c.vExceeded) → runPassDir (passes.getD k default) c1 fuel ar = .ok (some c2) →
       (WF c2.seg ∧ c2.vExceeded = c.vExceeded) :=
     fun ar k h1k h2k c1 c2 h1 e1 => ⟨runPassDir_spec _ c1 fuel ar h1.1 e1, (runPassDir_within_bound _ (hL k h1k h2k) c1 fuel ar h1.1 e1).trans h1.2⟩
   have hbegin : ∀ (x : Ctx) (l : Int), (WF x.seg ∧ x.vExceeded = c.vExceeded) → (WF (x.beginRange l).seg ∧ (x.beginRange l).vExceeded = c.vExceeded) :=
     fun x l hx => hx
-  have hbidi : ∀ (x : Ctx), (WF x.seg ∧ x.vExceeded = c.vExceeded) → (WF (bidiStep x).seg ∧ (bidiStep x).vExceeded = c.vExceeded) := by
-    intro x hx
-    refine ⟨bidiStep_wf hx.1, ?_⟩
-    unfold bidiStep
-    split
-    · exact hx.2
-    · exact hx.2
-  refine ⟨fun c' e => (runPhase_ind (fun x => WF x.seg ∧ x.vExceeded = c.vExceeded) passes bPass lo hi dobidi fuel hstep hbegin hbidi c ⟨h, rfl⟩ e).2, fun w e => ?_⟩
-  obtain ⟨ar, k, c1, h1k, h2k, h1, he⟩ := runPhase_err (fun x => WF x.seg ∧ x.vExceeded = c.vExceeded) passes bPass lo hi dobidi fuel hstep hbegin hbidi c ⟨h, rfl⟩ e
+  have hbidi : ∀ (x : Ctx), (WF x.seg ∧ x.vExceeded = c.vExceeded) → (WF (bidiStep x aMirror).seg ∧ (bidiStep x aMirror).vExceeded = c.vExceeded) :=
+    fun x hx => ⟨bidiStep_wf hx.1 aMirror, (bidiStep_vExceeded x aMirror).trans hx.2⟩
+  refine ⟨fun c' e => (runPhase_ind (fun x => WF x.seg ∧ x.vExceeded = c.vExceeded) passes bPass lo hi dobidi fuel aMirror hstep hbegin hbidi c ⟨h, rfl⟩ e).2, fun w e => ?_⟩
+  obtain ⟨ar, k, c1, h1k, h2k, h1, he⟩ := runPhase_err (fun x => WF x.seg ∧ x.vExceeded = c.vExceeded) passes bPass lo hi dobidi fuel aMirror hstep hbegin hbidi c ⟨h, rfl⟩ e
   exact runPassDir_error _ (hL k h1k h2k) c1 fuel ar h1.1 he
 
 /-- **C02, the pipeline**: for every font whose passes carry the loop limit the loader gives them, and every text, the rule
@@ -102,8 +97,8 @@ theorem shape_within_bound (font : Font) (text : List Nat) (fuel : Nat) (dir : N
     · cases e
     · cases e
     · rename_i c1 h1
-      have w1 : WF c1.seg := runPhase_spec _ _ _ _ _ _ _ (initSeg_wf font text dir) h1
-      have v1 : c1.vExceeded = false := (runPhase_within_bound _ _ _ _ _ _ fuel (initSeg_wf font text dir) hL1).1 c1 h1
+      have w1 : WF c1.seg := runPhase_spec _ _ _ _ _ _ _ (startMirror_wf font (initSeg_wf font text dir)) h1
+      have v1 : c1.vExceeded = false := ((runPhase_within_bound _ _ _ _ _ _ fuel (startMirror_wf font (initSeg_wf font text dir)) hL1 _).1 c1 h1).trans (startMirror_vExceeded font _)
       split at e
       · cases e
       · rename_i seg' ci' hre
@@ -114,7 +109,7 @@ theorem shape_within_bound (font : Font) (text : List Nat) (fuel : Nat) (dir : N
         · rename_i c2 h2
           simp only [Except.ok.injEq, Option.some.injEq, Prod.mk.injEq] at e
           rw [← e.1]
-          exact ((runPhase_within_bound _ _ (c1.withSeg seg') _ _ _ fuel w2 hL2).1 c2 h2).trans v1
+          exact ((runPhase_within_bound _ _ (c1.withSeg seg') _ _ _ fuel w2 hL2 _).1 c2 h2).trans v1
 
 /-- … and the fuel of the model's recursion is never what ends a run: an error of `shape` comes from a rule application
 (a fault the model reports for an access the C++ does not guard, or code the decoder refuses) or from `associateChars` -/
@@ -130,10 +125,10 @@ theorem shape_error (font : Font) (text : List Nat) (fuel : Nat) (dir : Nat) (hi
   · split at e
     · rename_i w1 h1
       cases e
-      exact .inl ((runPhase_within_bound _ _ _ _ _ _ fuel (initSeg_wf font text dir) hL1).2 w h1)
+      exact .inl ((runPhase_within_bound _ _ _ _ _ _ fuel (startMirror_wf font (initSeg_wf font text dir)) hL1 _).2 w h1)
     · cases e
     · rename_i c1 h1
-      have w1 : WF c1.seg := runPhase_spec _ _ _ _ _ _ _ (initSeg_wf font text dir) h1
+      have w1 : WF c1.seg := runPhase_spec _ _ _ _ _ _ _ (startMirror_wf font (initSeg_wf font text dir)) h1
       split at e
       · cases e; exact .inr rfl
       · rename_i seg' ci' hre
@@ -141,7 +136,7 @@ theorem shape_error (font : Font) (text : List Nat) (fuel : Nat) (dir : Nat) (hi
         split at e
         · rename_i w2' h2
           cases e
-          exact .inl ((runPhase_within_bound _ _ (c1.withSeg seg') _ _ _ fuel w2 hL2).2 w h2)
+          exact .inl ((runPhase_within_bound _ _ (c1.withSeg seg') _ _ _ fuel w2 hL2 _).2 w h2)
         · cases e
         · cases e
 
